@@ -2,6 +2,10 @@
 //@ anchor: src/debugger/breakpoint.rs :: impl Breakpoint / fn enable
 //@ anchor: src/debugger/breakpoint.rs :: impl Breakpoint / fn disable
 //@ anchor: src/debugger/breakpoint.rs :: impl Breakpoint / fn new_linker_map
+//@ anchor: src/debugger/breakpoint.rs :: impl BreakpointRegistry / fn add_and_enable
+//@ fragment: ADDEN :: src/debugger/breakpoint.rs :: impl BreakpointRegistry / fn add_and_enable :: `if let Some(existed) = self.breakpoints.get(&brkpt.addr) {` .. `brkpt.enable()?;`
+//@ harness: name=c02_add_and_enable prop=C02 unit=C02.add_and_enable mode=complete fn="BreakpointRegistry::add_and_enable (disable-existing-then-enable statements)"
+//@ assume: C02.add_and_enable: the registry's HashMap<RelocatedAddress, Breakpoint> is replaced by a one-slot map with the same `get` signature (std HashMap is outside CBMC's reach)
 //@ harness: name=c02_enable prop=C02 unit=C02.patch.enable mode=complete fn="Breakpoint::enable"
 //@ harness: name=c02_disable prop=C02 unit=C02.patch.disable mode=complete fn="Breakpoint::disable"
 //@ harness: name=c02_roundtrip prop=C02 unit=C02.patch.roundtrip mode=complete fn="Breakpoint::enable, Breakpoint::disable"
@@ -139,4 +143,44 @@ fn c02_reenable() {
     let r4 = b.disable();
     assert!(r4.is_ok() && mem() == old, "C02.patch.reenable.E3 final removal restores the original word");
     core::mem::forget((r1, r2, r3, r4, b));
+}
+
+
+// ---- replacing a breakpoint at an address that is already patched (first statements of add_and_enable)
+struct OneSlotMap { slot: Option<Breakpoint> }
+impl OneSlotMap {
+    fn get(&self, addr: &RelocatedAddress) -> Option<&Breakpoint> {
+        match &self.slot { Some(b) if b.addr == *addr => Some(b), _ => None }
+    }
+}
+struct RegistryShim { breakpoints: OneSlotMap }
+impl RegistryShim {
+    fn add_and_enable_prefix(&self, brkpt: &Breakpoint) -> Result<(), Error> {
+        /*@@FRAGMENT:ADDEN*/
+        Ok(())
+    }
+}
+
+#[kani::proof]
+#[kani::stub(nix::sys::ptrace::read, stub_read)]
+#[kani::stub(nix::sys::ptrace::write, stub_write)]
+fn c02_add_and_enable() {
+    let addr: usize = kani::any();
+    let word: i64 = kani::any();
+    unsafe { W_ADDR = addr; W = word; FOREIGN = false; READS = 0; WRITES = 0; READ_FAILS = false; WRITE_FAILS = false; }
+    let orig = word as u64;
+    // an active breakpoint already sits at this address
+    let existed = Breakpoint::new_linker_map(RelocatedAddress::from(addr), Pid::from_raw(1));
+    let r0 = existed.enable();
+    assert!(r0.is_ok(), "C02.add_and_enable.E0");
+    let reg = RegistryShim { breakpoints: OneSlotMap { slot: Some(existed) } };
+    let fresh = Breakpoint::new_linker_map(RelocatedAddress::from(addr), Pid::from_raw(1));
+    let r1 = reg.add_and_enable_prefix(&fresh);
+    assert!(r1.is_ok(), "C02.add_and_enable.E0");
+    assert!(mem() & 0xff == 0xCC && mem() & !0xff == orig & !0xff, "C02.add_and_enable.E1 the address stays patched with INT3, other bytes untouched");
+    assert!(fresh.saved_data.get() as u64 == orig & 0xff, "C02.add_and_enable.E2 the replacing breakpoint saved the ORIGINAL instruction byte, not the old patch");
+    let r2 = fresh.disable();
+    assert!(r2.is_ok() && mem() == orig, "C02.add_and_enable.E3 removing the replacing breakpoint restores the original word");
+    assert!(!unsafe { FOREIGN }, "C02.add_and_enable.E4 no other address touched");
+    core::mem::forget((r0, r1, r2, reg, fresh));
 }
